@@ -21,6 +21,9 @@ func propertyProviders(e *Engine, P string, tier string) []*Job {
 	if P == "C19" || P == "C02" {
 		jobs = append(jobs, globalFrameJobs(e, P)...)
 	}
+	if P == "C02" {
+		jobs = append(jobs, globalMapRangeJobs(e, P)...)
+	}
 	return jobs
 }
 
